@@ -103,6 +103,7 @@ Proof.
   unfold elem_accepts. destruct (t_owner e) as [[p sid]|]; [|discriminate].
   destruct (find_peer st p) as [y|] eqn:F; [|discriminate].
   destruct (slot_of y sid) as [[sl' s']|]; [|discriminate].
+  destruct (s_expired s'); [discriminate|].
   destruct (t_tag e); cbn [negb]; [|discriminate].
   destruct (accept (s_filter s') (t_ctr e) RejectAfterMessages); [|discriminate].
   intros H; inversion H; subst. apply (found_self st p). exact F.
@@ -113,16 +114,17 @@ Qed.
 Theorem elem_accepts_iff st e x sl s :
   elem_accepts st e = Some (x, sl, s) <->
   exists p sid, t_owner e = Some (p, sid) /\ find_peer st p = Some x /\ slot_of x sid = Some (sl, s) /\
-                t_tag e = true /\ accept (s_filter s) (t_ctr e) RejectAfterMessages = true.
+                s_expired s = false /\ t_tag e = true /\ accept (s_filter s) (t_ctr e) RejectAfterMessages = true.
 Proof.
   unfold elem_accepts. split.
   - destruct (t_owner e) as [[p sid]|]; [|discriminate].
     destruct (find_peer st p) as [y|] eqn:F; [|discriminate].
     destruct (slot_of y sid) as [[sl' s']|] eqn:S; [|discriminate].
+    destruct (s_expired s') eqn:X; [discriminate|].
     destruct (t_tag e); cbn [negb]; [|discriminate].
     destruct (accept (s_filter s') (t_ctr e) RejectAfterMessages) eqn:A; [|discriminate].
     intros H; inversion H; subst. exists p, sid. repeat split; assumption.
-  - intros (p & sid & A & B & C & D & E). rewrite A, B, C, D. cbn [negb]. rewrite E. reflexivity.
+  - intros (p & sid & A & B & C & X & D & E). rewrite A, B, C, X, D. cbn [negb]. rewrite E. reflexivity.
 Qed.
 
 (* freshness of counters: a delivered counter is refused afterwards, and so is one further
@@ -260,7 +262,7 @@ Proof.
               endpoint (put_peer st x') q = if p_id x =? q then p_endpoint x else endpoint st q).
   { intros x' I E. rewrite (endpoint_put st y) by (try exact Fy'; congruence). rewrite Iy, E. reflexivity. }
   unfold send_staged. destruct (p_staged x =? 0); cbn [fst]; [apply P; reflexivity|].
-  destruct (p_cur x); cbn [fst]; [apply P; reflexivity|].
+  destruct (match p_cur x with Some c => if s_expired c then None else Some c | None => None end); cbn [fst]; [apply P; reflexivity|].
   destruct (now - p_last_sent x <? RekeyTimeout); cbn [fst]; apply P; reflexivity.
 Qed.
 
@@ -280,7 +282,7 @@ Theorem endpoint_after st e p :
   endpoint (fst (step st e)) p = endpoint st p \/
   exists a, moves_to st e p a /\ endpoint (fst (step st e)) p = Some a.
 Proof.
-  destruct e as [now m sid|now m sid|now src|now src|now l|now q hid|now q a hid|q d|now|q]; cbn [step].
+  destruct e as [now m sid|now m sid|now src|now src|now l|now q hid|now q a hid|q d|now|q|q]; cbn [step].
   - unfold recv_init. destruct (init_accepts st now m) as [x|] eqn:E; [|left; reflexivity]. cbn [fst].
     rewrite (endpoint_put st x) by (try reflexivity; apply (init_accepts_found st now m); exact E).
     destruct (N.eqb_spec (p_id x) p) as [I|I]; [|left; reflexivity].
@@ -309,6 +311,10 @@ Proof.
   - destruct (find_peer st q) as [x|] eqn:F; [|left; reflexivity]. cbn [fst].
     rewrite (endpoint_put st x) by (try reflexivity; apply (found_self st q); exact F).
     cbn [set_rekey p_endpoint]. destruct (N.eqb_spec (p_id x) p) as [I|I]; [|left; reflexivity].
+    left. unfold endpoint. rewrite <- I, (found_self st q x F). reflexivity.
+  - destruct (find_peer st q) as [x|] eqn:F; [|left; reflexivity]. cbn [fst].
+    rewrite (endpoint_put st x) by (try reflexivity; apply (found_self st q); exact F).
+    cbn [age_keys p_endpoint]. destruct (N.eqb_spec (p_id x) p) as [I|I]; [|left; reflexivity].
     left. unfold endpoint. rewrite <- I, (found_self st q x F). reflexivity.
 Qed.
 
@@ -364,7 +370,7 @@ Proof.
   intros st p a K M Q. rewrite final_app, final_cons, (until_then_the_configured_endpoint _ _ _ Q).
   destruct (endpoint_after (final step st pre) e p) as [E|(a' & M' & E')].
   - (* a moving event writes its address even if it equals the old one *)
-    destruct e as [now m sid|now m sid|now src|now src|now l|now q hid|now q b hid|q d|now|q]; cbn [moves_to] in M; try contradiction.
+    destruct e as [now m sid|now m sid|now src|now src|now l|now q hid|now q b hid|q d|now|q|q]; cbn [moves_to] in M; try contradiction.
     + destruct M as (x & A & I & ->). rewrite <- I. apply (reply_to_new_endpoint _ now m sid x A).
     + destruct M as (x & A & I & ->). cbn [step]. unfold recv_resp. rewrite A. cbn [fst].
       rewrite (endpoint_put _ x) by (try reflexivity; apply (resp_accepts_found _ m); exact A).
@@ -376,7 +382,7 @@ Proof.
         cbn [with_ep p_id p_endpoint]. rewrite (find_id _ p x F), N.eqb_refl. reflexivity.
       * contradiction.
   - rewrite E'. f_equal.
-    destruct e as [now m sid|now m sid|now src|now src|now l|now q hid|now q b hid|q d|now|q]; cbn [moves_to] in *; try contradiction.
+    destruct e as [now m sid|now m sid|now src|now src|now l|now q hid|now q b hid|q d|now|q|q]; cbn [moves_to] in *; try contradiction.
     + destruct M as (x & A & I & ->). destruct M' as (x' & A' & I' & ->). reflexivity.
     + destruct M as (x & A & I & ->). destruct M' as (x' & A' & I' & ->). reflexivity.
     + destruct M as (_ & ->). destruct M' as (_ & ->). reflexivity.
@@ -409,7 +415,7 @@ Lemma send_staged_outputs st now x hid :
 Proof.
   intros F. pose proof (send_staged_endpoint st now x hid (p_id x) F) as E. rewrite N.eqb_refl in E.
   revert E. unfold send_staged. destruct (p_staged x =? 0); cbn [fst snd]; [constructor|].
-  destruct (p_cur x); cbn [fst snd].
+  destruct (match p_cur x with Some c => if s_expired c then None else Some c | None => None end); cbn [fst snd].
   - intros E. apply Forall_app. split.
     + apply send_to_ok; [exact E|]. intros a. split; reflexivity.
     + destruct (p_rekey x && negb (now - p_last_sent x <? RekeyTimeout)); [|constructor].
@@ -425,7 +431,7 @@ Theorem outputs_go_to_endpoint st e :
   (forall now l, e <> EBatch now l) ->
   Forall (fun y => endpoint (fst (step st e)) (out_peer y) = Some (out_to y)) (snd (step st e)).
 Proof.
-  intros NB. destruct e as [now m sid|now m sid|now src|now src|now l|now q hid|now q a hid|q d|now|q]; cbn [step].
+  intros NB. destruct e as [now m sid|now m sid|now src|now src|now l|now q hid|now q a hid|q d|now|q|q]; cbn [step].
   - unfold recv_init. destruct (init_accepts st now m) as [x|] eqn:E; cbn [fst snd]; [|constructor].
     constructor; [|constructor]. cbn [out_peer out_to].
     rewrite (endpoint_put st x) by (try reflexivity; apply (init_accepts_found st now m); exact E).
@@ -444,6 +450,7 @@ Proof.
     apply send_staged_outputs. cbn [with_ep p_id]. rewrite (found_self st q x F). discriminate.
   - destruct (find_peer st q); cbn [fst snd]; constructor.
   - constructor.
+  - destruct (find_peer st q); cbn [fst snd]; constructor.
   - destruct (find_peer st q); cbn [fst snd]; constructor.
 Qed.
 
@@ -498,14 +505,14 @@ Proof.
               last_ts st q <= last_ts (put_peer st x') q).
   { intros x' I E. apply (put_mono st y); [exact Fy'|congruence|]. rewrite E. apply L. reflexivity. }
   unfold send_staged. destruct (p_staged x =? 0); cbn [fst]; [apply P; reflexivity|].
-  destruct (p_cur x); cbn [fst]; [apply P; reflexivity|].
+  destruct (match p_cur x with Some c => if s_expired c then None else Some c | None => None end); cbn [fst]; [apply P; reflexivity|].
   destruct (now - p_last_sent x <? RekeyTimeout); cbn [fst]; apply P; reflexivity.
 Qed.
 
 (* the greatest consumed timestamp of a peer never decreases, whatever happens — restarts included *)
 Theorem last_timestamp_monotone st e q : last_ts st q <= last_ts (fst (step st e)) q.
 Proof.
-  destruct e as [now m sid|now m sid|now src|now src|now l|now p hid|now p a hid|p d|now|p]; cbn [step].
+  destruct e as [now m sid|now m sid|now src|now src|now l|now p hid|now p a hid|p d|now|p|p]; cbn [step].
   - unfold recv_init. destruct (init_accepts st now m) as [x|] eqn:E; cbn [fst]; [|lia].
     apply (put_mono st x); [apply (init_accepts_found st now m); exact E|reflexivity|].
     cbn [p_last_ts]. apply init_accepts_iff in E. lia.
@@ -525,6 +532,8 @@ Proof.
   - cbn [fst]. unfold last_ts. rewrite find_restart. destruct (find_peer st q); cbn [restart_peer p_last_ts]; lia.
   - destruct (find_peer st p) as [x|] eqn:F; cbn [fst]; [|lia].
     apply (put_mono st x); [apply (found_self st p); exact F|reflexivity|]. cbn [set_rekey p_last_ts]. lia.
+  - destruct (find_peer st p) as [x|] eqn:F; cbn [fst]; [|lia].
+    apply (put_mono st x); [apply (found_self st p); exact F|reflexivity|]. cbn [age_keys p_last_ts]. lia.
 Qed.
 
 Lemma final_last_ts evs : forall st q, last_ts st q <= last_ts (final step st evs) q.
@@ -574,4 +583,28 @@ Proof.
   unfold slot_of. cbn [p_next p_cur p_prev new_sess s_id]. rewrite Nx.
   destruct (N.eqb_spec sid (s_id s0)) as [E|E]; [congruence|].
   destruct (N.eqb_spec (s_id s1) (s_id s0)) as [E'|E']; [congruence|]. reflexivity.
+Qed.
+
+(* ------------------------------------------------ keypairs older than 180 s *)
+
+(* after all keypairs of a peer have passed RejectAfterTime, no transport element for that peer is
+   accepted, whatever it carries and wherever it comes from *)
+Lemma slot_aged x sid sl s : slot_of (age_keys x) sid = Some (sl, s) -> s_expired s = true.
+Proof.
+  unfold slot_of, age_keys, expire. cbn [p_next p_cur p_prev].
+  destruct (p_next x), (p_cur x), (p_prev x); cbn [s_id];
+    repeat match goal with |- context [if ?c then _ else _] => destruct c end;
+    intros H; inversion H; reflexivity.
+Qed.
+
+Theorem expired_keys_accept_nothing st p x e :
+  find_peer st p = Some x -> (exists sid, t_owner e = Some (p, sid)) ->
+  elem_accepts (fst (step st (EAgeKeys p))) e = None.
+Proof.
+  intros F (sid & O). cbn [step]. rewrite F. cbn [fst].
+  unfold elem_accepts. rewrite O, find_put.
+  replace (p_id (age_keys x)) with (p_id x) by reflexivity.
+  rewrite (find_id st p x F), N.eqb_refl, F.
+  destruct (slot_of (age_keys x) sid) as [[sl s]|] eqn:S; [|reflexivity].
+  rewrite (slot_aged x sid sl s S). reflexivity.
 Qed.
